@@ -33,7 +33,9 @@ struct RunCtx{
            reject_budget(0),fail_budget(0),hard_fail_at(0),distinct_inputs(0),nseen(0),opi(-1),moved_in_run(false){}
   void violation(const std::string& prop,const std::string& cls,const std::string& sig,const std::string& detail){
     if(!out->ok) return;
-    out->fail(cls,sig,"op#"+std::to_string(opi)+" "+opkind+": "+detail); out->prop=prop;
+    int sc=verif::alloc_in_scope(); verif::alloc_scope(0);      // may be called from a callback inside the library: harness strings must not live in the simulated heap
+    out->fail(std::string(cls.c_str()),std::string(sig.c_str()),"op#"+std::to_string(opi)+" "+opkind+": "+detail.c_str()); out->prop=std::string(prop.c_str());
+    verif::alloc_scope(sc);
   }
 };
 extern RunCtx* g_ctx;
@@ -45,7 +47,10 @@ struct SimSolver: public squids::SQuIDS{
   SimSolver& operator=(SimSolver&& o){ squids::SQuIDS::operator=(std::move(o)); ctx=o.ctx; return *this; }
 
   squids::SU_vector mk(const Mat& m) const{ std::vector<double> c=verif::to_components(m); return squids::SU_vector(c); }
-  void rec(int kind,unsigned ix,unsigned idx,double t) const{ CallRec r; r.kind=kind; r.ix=ix; r.idx=idx; r.t=t; r.self=this; ctx->log.push_back(r); }
+  void rec(int kind,unsigned ix,unsigned idx,double t) const{
+    CallRec r; r.kind=kind; r.ix=ix; r.idx=idx; r.t=t; r.self=this;
+    int sc=verif::alloc_in_scope(); verif::alloc_scope(0); ctx->log.push_back(r); verif::alloc_scope(sc);
+  }
 
   squids::SU_vector H0(double x,unsigned irho) const{ rec(6,0,irho,x); return mk(ctx->prob->H0(x,irho)); }
   squids::SU_vector HI(unsigned ix,unsigned irho,double t) const{ rec(1,ix,irho,t); return mk(ctx->prob->HI(ix,irho,t)); }
